@@ -202,6 +202,32 @@ def expand_cases(facts, ret, writes, max_split=4):
     return out
 
 
+def path_cases(paths):
+    """(facts, value, path) for every path, with conditional values (`a if c else b`) and non-constant truth values (`return c1 and c2`)
+    expanded into guarded cases, so that a function written with early returns and one written as a single expression give the same cases"""
+    from .absint import c_not
+
+    out = []
+    for p in paths:
+        for f, r, _w in expand_cases(tuple(p.state.facts), p.ret, {}):
+            if isinstance(r, BoolV) and isinstance(r.cond, tuple):
+                conj = list(r.cond[1:]) if r.cond[0] == "and" else [r.cond]
+                if all(c_not(c) not in f for c in conj):
+                    out.append((f + tuple(c for c in conj if c not in f), BoolV(True), p))
+                for i, c in enumerate(conj):
+                    nc = c_not(c)
+                    if c in f:
+                        continue
+                    # first i conjuncts hold, the i-th fails
+                    pre = tuple(x for x in conj[:i] if x not in f)
+                    if any(c_not(x) in f for x in conj[:i]):
+                        continue
+                    out.append((f + pre + ((nc,) if nc not in f else ()), BoolV(False), p))
+            else:
+                out.append((f, r, p))
+    return out
+
+
 def compare_class(prop: str, res: Result, repo: Repo, ci: ClassInfo) -> None:
     ref = ref_for(repo, ci)
     if ref is None:
